@@ -459,6 +459,20 @@ func driveOverlap(t *Tracer, r Rng, n int) {
 					la = append(la, a)
 					lb = append(lb, b)
 				}
+				if w.Abs && r.Chance(0.3) {
+					// "index twins" across zooms: another voxel of the first list at a different zoom whose x, y and
+					// offset vertical index f + 2^(z-1) are the same NUMBERS as a's (a different, usually disjoint voxel),
+					// listed after a and met by the probe alone
+					z2 := a.H + r.Pick(-2, -1, 1, 2)
+					if z2 >= 1 && z2 <= 28 {
+						tw := ID{H: z2, X: a.X, Y: a.Y, V: z2, F: a.F + (int64(1) << uint(a.H-1)) - (int64(1) << uint(z2-1))}
+						n2, half := int64(1)<<uint(z2), int64(1)<<uint(z2-1)
+						if tw.X < n2 && tw.Y < n2 && tw.F >= -half && tw.F < half {
+							la = append(append([]ID{}, a), tw)
+							lb = []ID{tw}
+						}
+					}
+				}
 				evOverlapSp(t, w, la, lb, true)
 			}
 		}
